@@ -120,4 +120,8 @@ Example C46_nonvacuous :
               map r_id (findnode t (id 6) 2 true) = [id 7; id 2]
   | None => False
   end.
-Proof. vm_compute. split; [repeat constructor|repeat split]. Qed.
+Proof.
+  split.
+  - repeat (constructor; [first [exact I | apply N.ltb_lt; vm_compute; reflexivity]|]). constructor.
+  - vm_compute. repeat split.
+Qed.
